@@ -176,6 +176,21 @@ def gen(c):
                 add({"op": "ecdh", "d": i2b(da), "peer": b"\x04" + i2b(PB[0]) + i2b(PB[1])}, {"kind": "ecdh", "what": "ecdh:%d:%d" % (i, j), "peerok": True, "qx": list(i2b(PB[0])), "qy": list(i2b(PB[1])), "x2": list(i2b(S[0])), "y2": list(i2b(S[1])), **pt_w(*PB)})
                 PA = mul(da, G)
                 add({"op": "ecdh", "d": i2b(db), "peer": b"\x04" + i2b(PA[0]) + i2b(PA[1])}, {"kind": "ecdh", "what": "ecdh:%d:%d:sym" % (j, i), "peerok": True, "qx": list(i2b(PA[0])), "qy": list(i2b(PA[1])), "x2": list(i2b(S[0])), "y2": list(i2b(S[1])), **pt_w(*PA)})
+    # ciphertexts whose C1 coordinates have DIFFERENT encoded lengths: a leading zero octet in x only, in y only, in both (DER INTEGERs drop it), a top bit
+    # set in one and not the other (DER adds 00) -- made by the reference for nonces searched for that shape; they decrypt like any other
+    want = {"x-short": lambda X, Y: X < 2 ** 248 <= Y, "y-short": lambda X, Y: Y < 2 ** 248 <= X, "x-short-y-top": lambda X, Y: X < 2 ** 248 and Y >= 2 ** 255,
+            "y-short-x-top": lambda X, Y: Y < 2 ** 248 and X >= 2 ** 255, "x-top-y-not": lambda X, Y: X >= 2 ** 255 > Y >= 2 ** 248, "y-top-x-not": lambda X, Y: Y >= 2 ** 255 > X >= 2 ** 248}
+    kk_ = 1000 + c.seed
+    while want and kk_ < 1000 + c.seed + 4000:
+        kk_ += 1
+        C1s = mul(kk_, G)
+        for nm in [n_ for n_, f_ in want.items() if f_(C1s[0], C1s[1])][:1]:
+            del want[nm]
+            S2 = mul(kk_, P); mm = rb(19)
+            t_ = kdf(i2b(S2[0]) + i2b(S2[1]), len(mm))
+            ctd = ct_der(C1s, sm3(i2b(S2[0]) + mm + i2b(S2[1])), bytes(u ^ v for u, v in zip(mm, t_)))
+            for iface in ("der", "ctx"):
+                add({"op": "decrypt", "iface": iface, "d": i2b(d), "ct": ctd, "chunks": "5"}, decrypt_case(d, ctd, "c1shape:%s:%s" % (nm, iface), "der"))
     # private keys of particular shapes (the last admissible values below n, whose windowed recoding ends in a borrow chain; small values; single bits; limb
     # boundaries): the shared point with one fixed peer, and the decryption of a ciphertext the reference made for that key
     dshapes = [n - 2 - i for i in range(14)] + [2, 3, 7, 8, 15, 16, 17, 31, 33, 2 ** 64 - 1, 2 ** 64, 2 ** 64 + 1, 2 ** 128 + 1, 2 ** 192, 2 ** 255, 2 ** 255 + 2 ** 64, (2 ** 256 // 3) % n, (2 ** 256 // 5) % n]
